@@ -57,8 +57,11 @@ def explore(universe, variant, depth, simulate=None, workers=2, emitidx=True, sd
     cfg = mkcfg(universe, variant, depth, emitidx, episodes)
     out = os.path.join(GEN, f"MC_{universe}_{variant}_{depth}_{'sim%d' % simulate if simulate else 'bfs'}_{os.getpid()}.out")
     try:
-        r = tlc.run(f"MC_{universe}.tla", cfg, workers=workers, simulate=simulate,
-                    depth=(depth + 1 if simulate else None), seed=sd, to_file=out, timeout=3000)
+        # the in-memory state queue: TLC 1.8's disk queue fails to serialise some lazily built set values of this model
+        # ("StatePoolWriter.run: ValueVec.size() ... elems is null") once the queue spills to disk; the graphs explored here fit in memory
+        r = tlc.run(f"MC_{universe}.tla", cfg, workers=workers, simulate=simulate, heap="6g",
+                    depth=(depth + 1 if simulate else None), seed=sd, to_file=out, timeout=3000,
+                    jvm=("-Dtlc2.tool.queue.IStateQueue=MemStateQueue",))
         if r.violation:
             raise Machinery(f"TLC reports a violation on the model itself ({universe}/{variant}/{depth}); the specification must hold "
                             f"by construction, so this is a machinery failure:\n{r.violation[:3000]}")
